@@ -46,7 +46,7 @@ Ref(cfg) ==
             [] cfg.shape = "fan2" -> IF cfg.dup THEN FAILED ELSE {<<N[1].n, v \o M(1)>>, <<N[2].n, v \o M(2)>>}
             [] cfg.shape = "fan3" -> IF cfg.dup THEN FAILED ELSE {<<N[2].n, v \o M(1) \o M(2)>>, <<N[3].n, v \o M(1) \o M(3)>>}
             [] cfg.shape = "fank" -> {<<N[i].n, v \o M(i)>> : i \in 1..Len(N)}      \* k parallel nodes with output keys joined at END
-            [] cfg.shape = "fmap" -> Str(v \o M(1) \o M(2))                        \* producer {x: v, y: marker} field-mapped into the consumer
+            [] cfg.shape \in {"fmap", "fmapn"} -> Str(v \o M(1) \o M(2))          \* fmapn: the mapped keys sit one level down ({o: {x, y}}, source paths o.x, o.y)                        \* producer {x: v, y: marker} field-mapped into the consumer
             [] cfg.shape \in {"nmap", "nmapn"} -> Str(v \o M(1) \o M(2))             \* a -> named map type {x: v, y: marker} -> b joins it
             \* NIL INTERFACE VALUES (legal on interface-typed edges; written "" like the empty string):
             \*   nil1  a : string -> any returns nil, straight to END of a Graph[string, any]
